@@ -150,7 +150,7 @@ def model_check_for(prop, tier, work):
 GEN_FAMILIES = {
     # property: list of (terms, srcs, nts, css, fans, NN, MaxW, tables)
     "C01": [(("collect_vec",), ("vec",), (3,), "Cs_2", "Fans_012", 4, 3), (("collect_vec",), ("iterx",), (2,), "Cs_1_2", "Fans_012", 3, 2),
-            (("collect_vec",), ("vec",), (6,), "Cs_min_auto", "Fans_012", 7, 6)],
+            (("collect_vec",), ("vec",), (6,), "Cs_min_auto", "Fans_0x", 7, 6)],
     "C02": [(("find",), ("vec",), (3,), "Cs_2", "Fans_find", 4, 3), (("find",), ("iterx", "iter"), (2,), "Cs_1_2", "Fans_find", 3, 2)],
     "C03": [(("reduce",), ("vec",), (3,), "Cs_2", "Fans_012", 4, 3), (("reduce",), ("iterx",), (2,), "Cs_1_2", "Fans_012", 3, 2)],
     "C04": [(("count", "for_each"), ("vec",), (3,), "Cs_2", "Fans_012", 4, 3), (("count",), ("iterx",), (2,), "Cs_1_2", "Fans_012", 3, 2)],
@@ -158,7 +158,7 @@ GEN_FAMILIES = {
     "C06": [(("collect_vec",), ("vec", "iterx"), (2,), "Cs_1_2", "Fans_012", 3, 2)],
     "C07": [(("collect_x",), ("vec",), (3,), "Cs_2", "Fans_012", 4, 3), (("collect_x",), ("iterx",), (2,), "Cs_1_2", "Fans_012", 3, 2)],
     "C08": [(("count", "find"), ("vec",), (2, 3), "Cs_1_2", "Fans_find", 4, 3), (("count",), ("vec",), (6,), "Cs_1_2", "Fans_1", 7, 6)],
-    "C10": [(("find",), ("vec", "iterx"), (2, 3), "Cs_1_2", "Fans_find", 4, 3), (("find",), ("vec",), (6,), "Cs_min_auto", "Fans_find", 7, 6)],
+    "C10": [(("find",), ("vec", "iterx"), (2, 3), "Cs_1_2", "Fans_find", 4, 3), (("find",), ("vec",), (6,), "Cs_min_auto", "Fans_m", 7, 6)],
     "C11": [(("collect_vec", "count", "reduce", "find"), ("vec", "iter"), (3,), "Cs_1_2_3", "Fans_012", 5, 3), (("count",), ("vec",), (6,), "Cs_1_2", "Fans_1", 7, 6)],
     "C13": [(("collect_vec", "find"), ("vec",), (2, 3), "Cs_1_2", "Fans_find", 3, 3)],
     "C15": [(("collect_vec", "count"), ("vec",), (2, 3), "Cs_min_auto", "Fans_012", 4, 3), (("count",), ("vec",), (6,), "Cs_min_auto", "Fans_1", 8, 6)],
@@ -182,7 +182,7 @@ def generated_jobs(prop, tier, seed, work):
         (terms, srcs, nts, css, fans, NN, W) = fam[:7]
         crashes = fam[7] if len(fam) > 7 else "NoCrash"
         # the replayed programs cover the kernel families: flat_map, filter_map and map+filter kernels
-        kinds = ("flat", "fmap", "filter") if fans in ("Fans_012", "Fans_find", "Fans_01") else ("flat",)
+        kinds = ("flat", "fmap", "filter") if fans in ("Fans_012", "Fans_find", "Fans_01", "Fans_0x", "Fans_m") else ("flat",)
         if kinds != ("flat",) and fans == "Fans_012":
             pass
         cfgp = os.path.join(work, f"gen-{fi}.cfg")
